@@ -19,7 +19,7 @@ def scenarios(tier):
     mon = ("c04",)
     return [
         Scenario("c04-eonly", World, dict(prop="C04", monitors=mon, regions=["R"], emax=2 if q else 3),
-                 BASE + [("ZMOVE", 2), ("ESET", "2"), ("TRAVELE", "O2"), ("TRAVELE", "I1")], max_states=150000 if q else 2000000),
+                 BASE + [("ZMOVE", 2), ("ESET", "2"), ("TRAVELE", "O2"), ("TRAVELE", "I1"), ("SET", "save", None)], max_states=150000 if q else 2000000),
         Scenario("c04-arcs", World, dict(prop="C04", monitors=mon, regions=["R"], emax=2, key_depth=True),
                  [("TRAVEL", "O1"), ("TRAVEL", "O2"), ("TRAVEL", "I1"), ("PRINT", "O1"), ("ARC", "under", "E"),
                   ("ARC", "cross", "E"), ("ARC", "into", "E"), ("ARC", "clear", "E"), ("RETRACT",), ("RECOVER",), ("ESET0",)],
